@@ -9,7 +9,7 @@ import jbkgen
 PROPS_DEFAULT = ["name", "size", "blob", "kind", "extra"]
 
 
-def make_container(rng, cid, n_entries=None, n_extras=0, comp=None, big=False, concat="one", mixed_hints=True):
+def make_container(rng, cid, n_entries=None, n_extras=0, comp=None, big=False, concat="one", mixed_hints=True, sizes=None):
     """a container whose entries describe its contents (name, size, content address)"""
     comp = comp or rng.choice(["none", "lz4", "lzma", "zstd"])
     level = {"none": 0, "lz4": 3, "lzma": 1, "zstd": rng.choice([1, 5])}[comp]
@@ -18,7 +18,7 @@ def make_container(rng, cid, n_entries=None, n_extras=0, comp=None, big=False, c
     extras = [{"pack_id": 2 + j, "file": "extra%d.jbkc" % j, "comp": rng.choice(["none", "zstd", "lz4"]), "level": 1, "ops": []}
               for j in range(n_extras)]
     for j in range(n):
-        size = rng.choice([0, 1, 5, 40, 200, 700]) if not big else rng.choice([100, 5000, 70000, 300000])
+        size = rng.choice(sizes) if sizes else (rng.choice([0, 1, 5, 40, 200, 700]) if not big else rng.choice([100, 5000, 70000, 300000]))
         op = {"cid": cid * 1000 + j, "size": size, "cls": rng.choice(["low", "rand", "zero"]),
               "hint": rng.choice(["yes", "no", "detect"]) if mixed_hints else "detect"}
         if extras and rng.random() < 0.5:
